@@ -13,6 +13,26 @@ import (
 	"testing"
 )
 
+// b2Short renders a value for a failure line, shortened (deeply nested values are huge).
+func b2Short(v any) string {
+	s := fmt.Sprintf("%#v", v)
+	if len(s) > 300 {
+		s = s[:300] + fmt.Sprintf("...(%d bytes)", len(s))
+	}
+	return s
+}
+
+func b2ShortErr(err error) string {
+	if err == nil {
+		return "<nil>"
+	}
+	s := err.Error()
+	if len(s) > 200 {
+		s = s[:80] + " ... " + s[len(s)-80:]
+	}
+	return s
+}
+
 func b2Thorough() bool { return os.Getenv("VERIF_TIER") == "thorough" }
 
 var b2Alphabet = []byte{0x00, '\n', '\r', ' ', '#', '(', ')', '/', '\\', '0', 'A', '<', '>', '[', '%', 0x7f, 0x80, 0xff}
@@ -40,7 +60,11 @@ func b2Scalars(strLen, nameLen int) []Object {
 	for _, i := range []int64{0, 1, -1, 9, 10, 127, 65535, math.MaxInt32, math.MinInt32, math.MaxInt64, math.MinInt64} {
 		out = append(out, Integer(i))
 	}
-	for _, r := range []float64{0, 1, -1, 0.5, -0.25, 1e-7, 123456789.125, 1e20, -1e20, 3, 0.1} {
+	for _, r := range []float64{0, 1, -1, 0.5, -0.25, 1e-7, 123456789.125, 1e20, -1e20, 3, 0.1,
+		// around the limits of exact and of 64-bit integer representation, and the ends of the range
+		9007199254740992, 9007199254740994, -9007199254740992, 9223372036854775807, 9223372036854775808, -9223372036854775808, 9.5e18, -9.5e18, 1e19, 1.8446744073709552e19,
+		4294967296, 2147483648, -2147483649, 1e15, 123456.7890625, 1e-5, 0.000001, 1.5e-10, 5e-324, math.MaxFloat64, -math.MaxFloat64, math.SmallestNonzeroFloat64,
+		9.100000000000001, 1234.5678901234567, 0.1 + 0.2, math.Pi, 1e21, 1e22, 123456789012345680} {
 		out = append(out, Real(r))
 	}
 	for _, s := range b2Strings(nameLen) {
@@ -49,6 +73,30 @@ func b2Scalars(strLen, nameLen int) []Object {
 	for _, s := range b2Strings(strLen) {
 		out = append(out, String(s))
 	}
+	// strings over a small alphabet of the characters with special meaning, up to length 5:
+	// every pattern of balanced and unbalanced parentheses and escapes
+	for _, alpha := range [][]byte{{'(', ')', '\\', 'a'}, {'(', ')'}} {
+		maxLen := 4
+		if len(alpha) == 2 {
+			maxLen = 7
+		}
+		cur := [][]byte{{}}
+		for l := 1; l <= maxLen; l++ {
+			var next [][]byte
+			for _, x := range cur {
+				for _, c := range alpha {
+					next = append(next, append(append([]byte{}, x...), c))
+				}
+			}
+			if l >= 3 {
+				for _, x := range next {
+					out = append(out, String(x))
+				}
+			}
+			cur = next
+		}
+	}
+	out = append(out, String("(a) and (b"), String("f(x) = g(y"), String("\\(\\)"), String("a\\"), String("(\r\n)"))
 	out = append(out, NewReference(1, 0), NewReference(16777215, 65535), NewReference(7, 3))
 	return out
 }
@@ -258,6 +306,27 @@ func TestB2C01Trees(t *testing.T) {
 		}
 	}
 	trees = append(trees, Array(nil), Dict(nil), Array{Array(nil)}, Dict{"N": nil}, Array{Dict{}}, Array{Array{Array{Array{Integer(1)}}}})
+	// nesting up to the documented limit of 256 containers, arrays and dictionaries alternating
+	// in every phase, innermost container of either kind
+	for _, depth := range []int{100, 253, 254, 255} { // the parse helper adds one enclosing array: 255 here is the limit of 256
+		for phase := 0; phase < 2; phase++ {
+			var o Object = Integer(depth)
+			for d := 0; d < depth; d++ {
+				if (d+phase)%2 == 0 {
+					o = Array{o}
+				} else {
+					o = Dict{"K": o}
+				}
+			}
+			trees = append(trees, o)
+		}
+		var arrs, dicts Object = Array{}, Dict{}
+		for d := 1; d < depth; d++ {
+			arrs = Array{arrs}
+			dicts = Dict{"K": dicts}
+		}
+		trees = append(trees, arrs, dicts)
+	}
 	cases := 0
 	for _, opt := range b2Opts {
 		for _, o := range trees {
@@ -270,7 +339,7 @@ func TestB2C01Trees(t *testing.T) {
 			got, err := b2ParseOne(buf.Bytes())
 			if err != nil || !Equal(got, b2Expect(o)) {
 				key := b2Key("tree-roundtrip", o)
-				t.Errorf("B2-FAIL %s opt=%d obj=%#v text=%q got=%#v err=%v", key, opt, o, buf.Bytes(), got, err)
+				t.Errorf("B2-FAIL %s opt=%d obj=%s text=%.300q got=%s err=%s", key, opt, b2Short(o), buf.Bytes(), b2Short(got), b2ShortErr(err))
 			}
 		}
 	}
